@@ -85,6 +85,9 @@ func (w *world) stepReplay(arg int) {
 		ml = p.fitMsg(ml)
 	}
 	msg, aux := w.data(ml), w.data(al)
+	if p.prep != nil {
+		msg = p.prep(msg)
+	}
 	out := w.useOnce(p, msg, aux, false, false, false)
 	if out == nil || w.lastProduce == nil {
 		return
@@ -103,8 +106,9 @@ func (w *world) stepReplay(arg int) {
 			naux = w.overwrite(prodRec.auxB, p.opP)
 		}
 		w.r.Probe("replay-produce-after-overwrite")
+		w.mayReject = true // the new content need not be something the primitive takes (a prehash, a wrapped key)
 		out2 := w.useOnce(p, nmsg, naux, false, false, false)
-		if out2 != nil && p.det && p.hidx >= 0 && p.ent.cat != nil && p.ent.cat.Cost == 0 && p.derive == nil {
+		if out2 != nil && p.det && !p.noRef && p.hidx >= 0 && p.ent.cat != nil && p.ent.cat.Cost == 0 && p.derive == nil {
 			w.reference(p, nmsg, naux, out2)
 		}
 	default: // the accepting call again, with the ciphertext / tag / signature, the message or the associated data as overwritten
